@@ -28,7 +28,10 @@ Correspondence (real code vs compiled model driver, every observable the propert
   clip      Grid.clip on boxes with both corners inside the extent against `clip` (bit-equal corner, data, parent):
             free boxes and lattice-aligned ones (decimal cell sizes 0.1, 0.05, 0.025, ...; corners ON cell edges, on
             centres, on quarters, and one ulp either side);
-  catchment Catchment.to_dict / from_dict after a real delineation, with and without inlets.
+  catchment Catchment.to_dict / from_dict (directly and through json) after a real delineation, with and without inlets:
+            random flow direction grids, and routed ones (spanning tree to the outlet around interior closed depressions)
+            whose area encloses one or several holes, with inlets next to the holes: outlet, inlets, area and filled area
+            as sets of cells, answers of isin(filled=False/True).
 Oracle (real objects only, independent of the model): bitwise equality of cell values after setter, save/load
 (little-endian as saved, big-endian as synthesised), clone; equality of shape, corner, cell size (bits), dtype and
 no-data value (NaN = NaN) after save/load, dict round trip, clone; clone independence both ways (clone(), clone(own dtype), clone(other dtype); np.shares_memory); every clipped
@@ -514,29 +517,63 @@ def body(ctx):
         except ValueError:
             ctx.count(("catch", idx), False, "catchment/delineation_error")
             return False
-        case = {"op": "catchment", "shape": [nr, nc], "outlet": outlet, "inlets": inlets, "flowdir": fd.data.tolist()}
+        area0 = sorted(int(v) for v in ca.idxcells_area)
+        filled0 = sorted(int(v) for v in ca.idxcells_area_filled)
+        hole = len(set(filled0) - set(area0))
+        want_in = None if ca.idxinlets is None else [int(v) for v in ca.idxinlets]
+        case = {"op": "catchment", "shape": [nr, nc], "outlet": outlet, "inlets": inlets, "flowdir": fd.data.tolist(),
+                "hole_cells": sorted(set(filled0) - set(area0))}
+
+        def judge(cb, via):
+            """the property on the rebuilt catchment: same outlet, inlets, area and filled area (as sets of cells, and as the
+            answers of isin), same flow direction grid metadata"""
+            c2 = {**case, "via": via}
+            if int(cb.idxcell_outlet) != int(ca.idxcell_outlet):
+                ctx.finding("catchment/outlet", "outlet changed in the dictionary round trip", c2)
+            got_in = None if cb.idxinlets is None else [int(v) for v in cb.idxinlets]
+            if got_in != want_in:
+                ctx.finding("catchment/inlets_lost" if got_in is None else "catchment/inlets", "inlets changed in the dictionary round trip",
+                            {**c2, "got": got_in, "want": want_in})
+            a1 = sorted(int(v) for v in cb.idxcells_area)
+            f1 = sorted(int(v) for v in cb.idxcells_area_filled)
+            if a1 != area0:
+                ctx.finding("catchment/area", "area cells changed in the dictionary round trip",
+                            {**c2, "missing": sorted(set(area0) - set(a1)), "extra": sorted(set(a1) - set(area0))})
+            if f1 != filled0:
+                ctx.finding("catchment/filled_area" + ("/with_hole" if hole else ""), "filled area cells changed in the dictionary round trip",
+                            {**c2, "missing": sorted(set(filled0) - set(f1)), "extra": sorted(set(f1) - set(filled0))})
+            if hasattr(ca, "isin"):
+                for fl in (False, True):
+                    want = [bool(ca.isin(c, fl)) for c in range(nr * nc)]
+                    try:
+                        got = [bool(cb.isin(c, fl)) for c in range(nr * nc)]
+                    except Exception as e:  # noqa
+                        ctx.finding("catchment/isin_raises", "isin raises on the rebuilt catchment", {**c2, "error": f"{exc_class(e)}: {e}"[:200]})
+                        continue
+                    if got != want:
+                        ctx.finding("catchment/isin" + ("_filled" if fl else ""), "the rebuilt catchment answers isin differently",
+                                    {**c2, "cells": [c for c in range(nr * nc) if got[c] != want[c]]})
+            check_meta(ctx, "catchment/flowdir", ca.flowdir, cb.flowdir, c2)
+            return got_in, a1, f1
+
         try:
             d = ca.to_dict()
             cb = Catchment.from_dict(d)
         except Exception as e:  # noqa
             ctx.finding("catchment/dict_raises", "Catchment dictionary round trip raises", {**case, "error": f"{exc_class(e)}: {e}"[:200]})
             return True
-        got_in = None if cb.idxinlets is None else [int(v) for v in cb.idxinlets]
-        want_in = None if ca.idxinlets is None else [int(v) for v in ca.idxinlets]
-        impl = " ".join([enc(cb.name), str(int(cb._idxcell_outlet)), ilist(got_in), ilist(cb._idxcells_area), ilist(cb._idxcells_area_filled)])
+        got_in, a1, f1 = judge(cb, "dict")
+        impl = (cb.name, int(cb._idxcell_outlet), got_in, a1, f1)
         ask(" ".join(["catch", enc(ca.name), str(int(ca._idxcell_outlet)), ilist(want_in), ilist(ca._idxcells_area), ilist(ca._idxcells_area_filled),
                       grid_toks(ca.flowdir)]), "catch", (impl, obs_real(cb.flowdir)), case)
-        if int(cb.idxcell_outlet) != int(ca.idxcell_outlet):
-            ctx.finding("catchment/outlet", "outlet changed in the dictionary round trip", case)
-        if got_in != want_in:
-            ctx.finding("catchment/inlets_lost" if got_in is None else "catchment/inlets", "inlets changed in the dictionary round trip",
-                        {**case, "got": got_in, "want": want_in})
-        if [int(v) for v in cb.idxcells_area] != [int(v) for v in ca.idxcells_area] or \
-                [int(v) for v in cb.idxcells_area_filled] != [int(v) for v in ca.idxcells_area_filled]:
-            ctx.finding("catchment/area", "area cells changed in the dictionary round trip", case)
-        check_meta(ctx, "catchment/flowdir", ca.flowdir, cb.flowdir, case)
+        # the dictionary is meant for json: same judgement after dumps / loads
+        try:
+            dj = json.loads(json.dumps(ca.to_dict(), default=lambda x: x.item() if isinstance(x, np.generic) else x.tolist()))
+            judge(Catchment.from_dict(dj), "json")
+        except Exception as e:  # noqa
+            ctx.finding("catchment/json_raises", "Catchment dictionary round trip through json raises", {**case, "error": f"{exc_class(e)}: {e}"[:200]})
         ctx.count(("catch", nr, nc, outlet, tuple(inlets or ()), tuple(fd.data.ravel())), True,
-                  "catchment/" + ("inlets" if want_in else "no_inlets"), sample=case if idx < 3 else None)
+                  "catchment/" + ("inlets" if want_in else "no_inlets") + ("/hole" if hole else ""), sample=case if idx < 3 else None)
         return True
 
     # corpus: minimised past failures first (the four defects repaired by the fix: commits)
@@ -1098,6 +1135,64 @@ def body(ctx):
 
     # ======================================================================= (7) catchments
     codes = [int(c) for c in FLOWDIRCODE.ravel() if c != 0]
+
+    def routed_catchment():
+        """a flow direction grid in which every cell outside a set of interior `pits` drains to the outlet (each cell points to
+        its parent in a random spanning tree grown from the outlet, 8 directions), and the pits are closed depressions: sinks,
+        or cells draining into a neighbouring pit. Pits enclosed by the area are HOLES: they belong to the filled area only."""
+        nr, nc = rng.randint(3, 9), rng.randint(3, 9)
+        npit = rng.choice([1, 1, 2, 3, 5])
+        pits = set()
+        for _ in range(npit):
+            r, c = rng.randrange(1, nr - 1), rng.randrange(1, nc - 1)     # interior: not connected to the border by itself
+            pits.add((r, c))
+            if rng.random() < 0.3:                                       # a two-cell depression
+                r2, c2 = r + rng.choice([-1, 0, 1]), c + rng.choice([-1, 0, 1])
+                if 0 < r2 < nr - 1 and 0 < c2 < nc - 1:
+                    pits.add((r2, c2))
+        free = [(r, c) for r in range(nr) for c in range(nc) if (r, c) not in pits]
+        orc = rng.choice(free)
+        fd = np.zeros((nr, nc), dtype=np.int64)
+        seen = {orc}
+        frontier = [orc]
+        while frontier:                                                   # randomised growth: parent = the cell reached from
+            r, c = frontier.pop(rng.randrange(len(frontier)))
+            nbs = [(r + dr, c + dc) for dr in (-1, 0, 1) for dc in (-1, 0, 1) if (dr, dc) != (0, 0)]
+            rng.shuffle(nbs)
+            for (r2, c2) in nbs:
+                if 0 <= r2 < nr and 0 <= c2 < nc and (r2, c2) not in pits and (r2, c2) not in seen:
+                    seen.add((r2, c2))
+                    fd[r2, c2] = FLOWDIRCODE[r - r2 + 1, c - c2 + 1]      # (r2, c2) flows to (r, c)
+                    frontier.append((r2, c2))
+        fd[orc] = rng.choice([0, 0] + codes)                               # the outlet may flow on, out of the catchment or not
+        for (r, c) in pits:
+            near = [(r + dr, c + dc) for dr in (-1, 0, 1) for dc in (-1, 0, 1) if (dr, dc) != (0, 0) and (r + dr, c + dc) in pits]
+            if near and rng.random() < 0.5:
+                r2, c2 = rng.choice(near)
+                fd[r, c] = FLOWDIRCODE[r2 - r + 1, c2 - c + 1]
+                if fd[r2, c2] != 0 and (r2 + {32: -1, 64: -1, 128: -1, 16: 0, 1: 0, 8: 1, 4: 1, 2: 1}[int(fd[r2, c2])],
+                                        c2 + {32: -1, 64: 0, 128: 1, 16: -1, 1: 1, 8: -1, 4: 0, 2: 1}[int(fd[r2, c2])]) == (r, c):
+                    fd[r2, c2] = 0                                         # no two-cell cycle
+        outlet = orc[0] * nc + orc[1]
+        ring = sorted({(r + dr) * nc + (c + dc) for (r, c) in pits for dr in (-1, 0, 1) for dc in (-1, 0, 1)
+                       if (r + dr, c + dc) not in pits} - {outlet})
+        return fd, outlet, ring
+
+    for rep in range(ctx.scale(120, 1000)):
+        try:
+            fddata, outlet, ring = routed_catchment()
+            k = rng.random()
+            if k < 0.4:
+                inlets = None
+            elif k < 0.7 and ring:
+                inlets = rng.sample(ring, min(len(ring), rng.randint(1, 2)))          # inlets touching a hole
+            else:
+                nrc = fddata.size
+                inlets = [c for c in rng.sample(range(nrc), min(nrc, rng.randint(1, 3))) if c != outlet] or None
+            catchment_case(fddata, outlet, inlets, gen_text(rng) or "h", 50 + rep)
+        except Exception as e:  # noqa
+            escaped(e)
+
     ndone = 0
     for rep in range(ctx.scale(100, 800) * 3):
         try:
@@ -1204,11 +1299,14 @@ def body(ctx):
             if toks[0] != "ok":
                 differ(f"{tag}: model fails ({rep})", case)
                 return
-            mflat = " ".join(toks[1:6])
+            def il(tok):
+                return None if tok == "-" else [int(v) for v in C.parse_list(tok)]
+            # areas are sets of cells: the listing order is not fixed by the property
+            mcatch = (dec(toks[1]), int(toks[2]), il(toks[3]), sorted(il(toks[4])), sorted(il(toks[5])))
             model = obs_model(toks[6:])
             d = diff_obs(impl[1], model)
-            if mflat != impl[0] or d:
-                differ(f"{tag}: rebuilt catchments differ", {**case, "impl": impl[0], "model": mflat, "flowdir_fields": d})
+            if mcatch != tuple(impl[0]) or d:
+                differ(f"{tag}: rebuilt catchments differ", {**case, "impl": list(impl[0]), "model": list(mcatch), "flowdir_fields": d})
 
     replies = ctx.lean.ask(reqs)
     for req, rep, (kind, impl, case) in zip(reqs, replies, checks):
